@@ -84,6 +84,11 @@ def gen_format():
         gen_structs.generate(os.path.join(REPO, "src"), os.path.join(COQ, "Gen_structs.v"))
     except Exception as e:
         raise CheckError("translator/structs.py failed on /repo/src: %s" % e)
+    import readers as gen_readers
+    try:
+        gen_readers.generate(os.path.join(REPO, "src"), os.path.join(COQ, "Gen_readers.v"))
+    except Exception as e:
+        raise CheckError("translator/readers.py failed on /repo/src: %s" % e)
     import hashes as gen_hashes
     try:
         gen_hashes.generate(os.path.join(REPO, "src"), os.path.join(COQ, "Gen_hash.v"))
@@ -398,7 +403,7 @@ TRUSTED_BASE_COMMON = [
     "Coq 8.16.1 kernel (coqc full .vo build, no -vos); vm_compute (bytecode VM) used for finite sweeps and Examples; no native_compute",
     "no Axiom/Parameter/Admitted anywhere (grep gate on every run + Print Assumptions under every property theorem)",
     "model <-> code tie: correspondence check (same scripts through harness/cpp/drv.cpp on /repo's working tree and through the OCaml extraction of the model)",
-    "model <-> code tie, second route: translator/format.py regenerates coq/Gen_format.v from /repo/src (clang 14 AST: enumerations of format_specification.h, the two BUFFER_SIZE constants, index_t) on every run; coq/Properties_format.v re-proves by computation that the model's descriptors (keys, order, signedness), hint-bit table, CBOR type codes and buffer sizes equal it; translator/structs.py regenerates coq/Gen_structs.v (members of the 17 serialised structures with their C++ types, clang AST of file_preamble.h / block.h; regenerated when the digest of those headers changes) and FT_struct_members re-checks number, order, optionality, vector-ness and scalar width of every descriptor member; translator/hashes.py regenerates coq/Gen_hash.v (members read by operator== / hash_value of the eight table-key types, clang AST of block.h) and coq/Properties_hash.v re-proves hash-within-equality and equality-covers-every-member",
+    "model <-> code tie, second route: translator/format.py regenerates coq/Gen_format.v from /repo/src (clang 14 AST: enumerations of format_specification.h, the two BUFFER_SIZE constants, index_t) on every run; coq/Properties_format.v re-proves by computation that the model's descriptors (keys, order, signedness), hint-bit table, CBOR type codes and buffer sizes equal it; translator/structs.py regenerates coq/Gen_structs.v (members of the 17 serialised structures with their C++ types, clang AST of file_preamble.h / block.h; regenerated when the digest of those headers changes) and FT_struct_members re-checks number, order, optionality, vector-ness and scalar width of every descriptor member; translator/readers.py regenerates coq/Gen_readers.v from the clang AST of the 19 read() methods (per key: mandatory on reading, non-empty insisted on, a repeated key accumulates; whether read() resets first) and FT_reader_presence re-checks the presence class of every descriptor member and the descriptors' lists of accumulating members; translator/hashes.py regenerates coq/Gen_hash.v (members read by operator== / hash_value of the eight table-key types, clang AST of block.h) and coq/Properties_hash.v re-proves hash-within-equality and equality-covers-every-member",
     "extraction: ExtrOcamlBasic only (Extract Inductive bool/option/unit/list/prod/sumbool/sumor, Extract Inlined Constant andb/orb); OCaml 4.13.1; harness/ocaml/*.ml glue",
     "g++ 12.2 -std=c++14 -msse4 with ASan/UBSan; Python orchestrator, generators and oracles under harness/py",
 ]
